@@ -180,10 +180,16 @@ func (fc *FnCtx) preamble() string {
 	for _, k := range keys {
 		fmt.Fprintf(&b, "(declare-const %s %s)\n", compInit(k), fc.comps[k])
 	}
+	var late []string // axioms that mention a string constant (declared below) or a function declared later
 	for _, u := range fc.ufList {
 		fmt.Fprintf(&b, "(declare-fun %s %s)\n", u, fc.ufs[u])
 		if ax := fc.ufAxioms[u]; ax != "" {
-			b.WriteString(ax + "\n")
+			if strings.Contains(ax, "strk_") {
+				// e.g. the defining axiom of a rec spec function that mentions a string constant (strseq): after all declarations
+				late = append(late, ax)
+			} else {
+				b.WriteString(ax + "\n")
+			}
 		}
 		if u == "kvkey" || u == "kvval" {
 			// T-KV: ids of byte strings are >= 1 (0 is "no entry")
@@ -195,6 +201,9 @@ func (fc *FnCtx) preamble() string {
 	}
 	if d := fc.tc.strDistinct(); d != "" {
 		b.WriteString(d + "\n")
+	}
+	for _, ax := range late {
+		b.WriteString(ax + "\n")
 	}
 	return b.String()
 }
